@@ -85,7 +85,7 @@ class C01(Check):
                 return [0]  # the length set of an empty composite: repetitions of it stay {0}
             n = rng.randint(1, 4)
             if huge and rng.random() < 0.5:
-                vals = sorted({rng.choice([0, 1, 7, 8, 16, 24, 31, 32, 33, 64, 2**20 + 1, 2**40]) for _ in range(n)})
+                vals = sorted({rng.choice([0, 1, 7, 8, 16, 24, 31, 32, 33, 64, 2**20 + 1, 2**40, 2**53 + 1, 2**53 - 64 + 5, 2**60 + 7, 2**63 + 3]) for _ in range(n)})
             else:
                 vals = sorted({rng.randint(0, 199) for _ in range(n)})
             return vals
@@ -318,7 +318,14 @@ class C01(Check):
                             raise InvalidScenario(k)
                         operands = [x for x in (op[1] if isinstance(op[1], list) else [op[1]]) if isinstance(x, int)]
                         dp = 1 + max([depth[x] for x in operands] or [0])
-                        # operands never change: every recorded answer of every operand still holds
+                        # operands never change: every recorded answer of every operand still holds, and so do the cheap ones
+                        # that were never asked before (an operand whose old answers are memoised may still have changed)
+                        for x in operands:
+                            if (real[x].min, real[x].max) != (ref[x].lo, ref[x].hi):
+                                out.fail("C01.operand-stable", "op %d: after building a new set from #%d its min / max are %d / %d, mathematically %d / %d" % (n, x, real[x].min, real[x].max, ref[x].lo, ref[x].hi), "operand:minmax")
+                            for d0 in (7, 12):
+                                if est_cost(ref[x], d0) <= 2000 and sorted(set(real[x] % d0)) != sorted(ref[x].mod(d0)):
+                                    out.fail("C01.operand-stable", "op %d: after building a new set from #%d its residues mod %d are %s, mathematically %s" % (n, x, d0, sorted(set(real[x] % d0)), sorted(ref[x].mod(d0))), "operand:mod")
                         for x in operands:
                             for (i2, q2), want in list(answers.items()):
                                 if i2 == x:
